@@ -170,7 +170,7 @@ func H_C09_stream_ints(t *verifrt.T) {
 	n := t.Param("N")
 	data := t.Bytes("doc", n)
 	for i := range data {
-		t.Assume(verifrt.Or(verifrt.And(data[i] >= '0', data[i] <= '9'), data[i] == '-', data[i] == ' '))
+		t.Assume(verifrt.Or(verifrt.And(data[i] >= '0', data[i] <= '9'), data[i] == '-', data[i] == ' ', data[i] == '.', data[i] == 'e'))
 	}
 	targets := []interface{}{new(int8), new(int16), new(int32), new(int64), new(uint8), new(uint16), new(uint32), new(uint64)}
 	typ := targets[t.Choice("target", len(targets))]
